@@ -225,6 +225,7 @@ func runC17(c *kit.Ctx) {
 	// ---- R3 no waitless cycle -------------------------------------------------
 	c.StartRule("R3", "every cycle of every retry loop waits, is bounded, or is a tabled NotServingRegionError cycle", 6)
 	retryLoopsWait(c)
+	exceptionTableOracle(c)
 
 	// the connection-level-error cap of SendBatch looks at this round's retry list:
 	// nothing may empty or replace that list between the round's wait and the test
